@@ -667,3 +667,152 @@ fn shrink_impl(s: &Scn) -> Vec<Scn> {
         out
     }
 }
+
+// ----------------------------------------------------------------------------------------------
+// C11, per-worker part: what a worker pool retains for a worker that has stopped consuming is bounded by the
+// configured queue size. Fault: every worker stalls (descheduled node); the dispatcher keeps handing over frames.
+
+#[derive(Clone, Debug, Serialize, Deserialize)]
+pub struct StallScn {
+    pub cfg: PoolCfg,
+    #[serde(with = "crate::pkt::hexser")]
+    pub frame: Vec<u8>,
+    /// frames handed over while the workers are stalled
+    pub n: usize,
+    pub schedule: u64,
+}
+
+pub struct C11Pool;
+
+#[derive(Clone, Debug, Default)]
+struct StallOut {
+    queued: usize,
+    dropped: usize,
+    max_depth: usize,
+    depth_at_end: usize,
+    stats_dropped: u64,
+    drained: bool,
+    err: Option<String>,
+}
+
+impl Prop for C11Pool {
+    type Scn = StallScn;
+    const ID: &'static str = "C11";
+    const ENGINE: &'static str = "poolsim";
+
+    fn rule() -> &'static str {
+        "poolsim part: one evaluation = one execution of a real worker pool whose workers are stalled while the dispatcher hands over queue_size + k frames; the depth of every worker queue (stats()) never exceeds the configured queue size, exactly the overflow is reported dropped and counted, and after the stall ends the queues drain; non-trivial = at least one frame queued and one dropped; distinct = distinct (pool, queue size, k)"
+    }
+
+    fn runs(tier: Tier) -> u64 {
+        tier.pick(24, 200)
+    }
+
+    fn run_wall_limit_s() -> u64 {
+        120
+    }
+
+    fn panics_are_violations() -> bool {
+        true
+    }
+
+    fn generate(r: &mut Rng, tier: Tier, _idx: u64) -> StallScn {
+        let kind = *r.pick(&PoolKind::ALL);
+        let queue = match r.below(6) {
+            0 => r.urange(1, 8),
+            1 => 64,
+            2 => r.urange(100, 5000),
+            3 => 65_536,
+            _ => 65_537 + r.usize_below(tier.pick(2_000, 40_000)),
+        };
+        let cfg = PoolCfg { kind, workers: 1, queue, batch: *r.pick(&[1usize, 16, 64]), timeout_ms: 10, cap: 64, with_db: false, filter: None };
+        // a frame that yields no result in the TLS pool and a cheap (empty) one in the others: a bare ACK
+        let h = tcp::Host::random(r);
+        let seg = tcp::data(&h, Endpoint::v4(10, 77, 0, 1, 40000), Endpoint::v4(10, 77, 0, 2, 443), 1001, 5001, vec![], 0, 0, pkt::ACK);
+        StallScn { cfg, frame: pkt::frame(&seg, Framing::Ethernet), n: queue + r.urange(1, 300), schedule: r.next_u64() }
+    }
+
+    fn run(s: &StallScn, st: &mut RunStats) -> Result<(), Violation> {
+        let slot: Arc<std::sync::Mutex<StallOut>> = Arc::new(std::sync::Mutex::new(StallOut::default()));
+        let (slot2, s2) = (slot.clone(), s.clone());
+        pool::run_scheduled_steps(s.schedule, Sched::Random, 1, 60_000_000, move || {
+            let mut o = StallOut::default();
+            verif_chan::evlog_reset();
+            verif_chan::reset_ids();
+            verif_chan::stall(true);
+            match pool::make_pool(&s2.cfg) {
+                Err(e) => o.err = Some(e),
+                Ok((p, recv)) => {
+                    // a consumer for whatever results the pool produces once the stall is over
+                    let consumer = shuttle::thread::spawn(move || {
+                        let mut n = 0usize;
+                        while recv().is_some() {
+                            n += 1;
+                        }
+                        n
+                    });
+                    for i in 0..s2.n {
+                        if p.dispatch(s2.frame.clone()) {
+                            o.queued += 1;
+                        } else {
+                            o.dropped += 1;
+                        }
+                        if i % 512 == 0 || i + 1 == s2.n {
+                            o.max_depth = o.max_depth.max(p.stats().workers.iter().map(|w| w.0).max().unwrap_or(0));
+                        }
+                    }
+                    let stx = p.stats();
+                    o.depth_at_end = stx.workers.iter().map(|w| w.0).max().unwrap_or(0);
+                    o.stats_dropped = stx.dropped;
+                    verif_chan::stall(false);
+                    for _ in 0..200_000 {
+                        if p.stats().workers.iter().all(|w| w.0 == 0) {
+                            o.drained = true;
+                            break;
+                        }
+                        shuttle::thread::sleep(std::time::Duration::from_millis(0));
+                    }
+                    drop(p);
+                    let _ = consumer.join();
+                }
+            }
+            *slot2.lock().unwrap() = o;
+        });
+        let o = slot.lock().unwrap().clone();
+        if let Some(e) = o.err {
+            return Err(Violation::new("harness-error", "", e));
+        }
+        st.evals = 1;
+        st.packets += s.n as u64;
+        st.fault("workers_stalled");
+        st.ev_u64(s.cfg.queue as u64);
+        st.ev_u64(s.n as u64);
+        st.ev(s.cfg.kind.name());
+        st.probe_n("deepest_queue_seen", o.max_depth as u64);
+        let key = s.cfg.kind.name();
+        if o.max_depth > s.cfg.queue || o.depth_at_end > s.cfg.queue {
+            return Err(Violation::new("queue-exceeds-configured-size", key, format!("workers stalled, {} frames handed over: stats() shows a worker queue holding {} frames, configured queue size {}", s.n, o.max_depth.max(o.depth_at_end), s.cfg.queue)));
+        }
+        if o.queued > s.cfg.queue {
+            return Err(Violation::new("queue-exceeds-configured-size", key, format!("workers stalled: {} dispatches returned Queued with a queue of {}", o.queued, s.cfg.queue)));
+        }
+        if o.queued + o.dropped != s.n || o.stats_dropped != o.dropped as u64 {
+            return Err(Violation::new("stats-dropped", key, format!("{} frames: {} queued, {} dropped, stats().total_dropped = {}", s.n, o.queued, o.dropped, o.stats_dropped)));
+        }
+        if !o.drained {
+            return Err(Violation::new("queue-not-drained", key, "the stall ended but the queues never emptied".to_string()));
+        }
+        st.nontrivial = o.queued > 0 && o.dropped > 0;
+        Ok(())
+    }
+
+    fn shrink(s: &StallScn) -> Vec<StallScn> {
+        let mut out = vec![];
+        if s.n > s.cfg.queue + 1 {
+            let mut x = s.clone();
+            x.n = s.cfg.queue + 1;
+            out.push(x);
+        }
+        out
+    }
+}
